@@ -32,13 +32,13 @@ func drawLabels(t *rapid.T) map[string]string {
 }
 
 type treeStats struct {
-	nestedFiltered   bool
-	refilterReady    bool
-	crossedByUpdate  bool
-	relistAfterDrop  bool
-	closedInternal   bool
-	maxDepth         int
-	nops             int
+	nestedFiltered  bool
+	refilterReady   bool
+	crossedByUpdate bool
+	relistAfterDrop bool
+	closedInternal  bool
+	maxDepth        int
+	nops            int
 }
 
 // treeOps returns the rapid state-machine actions over world w.
